@@ -234,6 +234,18 @@ func firstGozFrame(g string) string {
 	return "(only created-by frame)"
 }
 
+// waitingState reports whether a goroutine header shows a state that lasts until another goroutine acts
+// (a wait for a mutex is not one of them: it ends on its own; "semacquire" is not either: the runtime shows it for
+// short internal waits of a goroutine inside Limiter.Go, observed on the unchanged tree).
+func waitingState(head string) bool {
+	for _, s := range []string{"[chan send", "[chan receive", "[select", "[sync.Cond.Wait"} {
+		if strings.Contains(head, s) {
+			return true
+		}
+	}
+	return false
+}
+
 func goroutineState() (st gstate) {
 	buf := make([]byte, 1<<20)
 	n := runtime.Stack(buf, true)
@@ -251,13 +263,13 @@ func goroutineState() (st gstate) {
 		switch {
 		case strings.Contains(head, "[chan receive") && (strings.Contains(g, "(*world).body") || strings.Contains(g, "c19.run.func")):
 			parked = true // a function parked on its harness gate (or a function of the twin Limiter parked on its hold channel)
-		case strings.Contains(head, "[chan send") && strings.Contains(g, "goz.(*Limiter).add"):
-			parked = true // waiting for a slot
+		case waitingState(head) && (strings.Contains(g, "goz.(*Limiter).add(") || strings.Contains(g, "goz.(*Limiter).Go(")):
+			parked = true // waiting for a slot (whatever the Limiter waits on: channel, condition variable, semaphore)
 		case strings.Contains(g, "goz.(*Limiter).Wait") && (strings.Contains(head, "[semacquire") || strings.Contains(head, "[sync.WaitGroup.Wait") || strings.Contains(head, "[chan receive") || strings.Contains(head, "[select")):
 			parked = true // a caller of Wait
 		}
 		if strings.Contains(g, "c19.submitLoop") {
-			st.submitterInSend = strings.Contains(head, "[chan send")
+			st.submitterInSend = waitingState(head) && (strings.Contains(g, "goz.(*Limiter).add(") || strings.Contains(g, "goz.(*Limiter).Go("))
 		} else if strings.Contains(head, "[chan send") {
 			st.workersInSend++
 		}
@@ -759,7 +771,7 @@ func run(c limCase, r *pb.Rec) error {
 		return err
 	}
 	if b := atomic.LoadInt32(&w.blocked); blockedSub || int(b) != n {
-		return fmt.Errorf("slot leak after %d panics: only %d of %d later submissions run concurrently (submitter blocked: %v)", len(wantPanics), b, n, blockedSub)
+		return fmt.Errorf("slot leak after %d panics: only %d of %d later submissions run concurrently (submitter blocked: %v); goroutines of the Limiter: %s", len(wantPanics), b, n, blockedSub, w.lastDump)
 	}
 	// the Limiter is being reused: Wait() must block while the n functions are parked inside
 	waitDone2 := make(chan struct{})
